@@ -649,6 +649,42 @@ func (c *EvalCtx) call(n *Node) Val {
 		}
 		a := t.Frags[0].Atom
 		return subAtom(a, c.evalTerm(n.Kids[1]), c.evalTerm(n.Kids[2]), mkVar("len!"+a, SInt))
+	case "cmp_equal":
+		return mkVar("cmpeq!"+refTag(arg(0))+"!"+refTag(arg(1)), SBool)
+	case "cmp_options_only":
+		sl, ok := arg(0).(SliceV)
+		if !ok {
+			specErr(n, "cmp_options_only: slice expected")
+		}
+		allowed := map[string]bool{}
+		for k := 1; k < len(n.Kids); k++ {
+			s, _ := arg(k).(Text).concrete()
+			allowed[s] = true
+		}
+		for k := 0; k < sl.Len_; k++ {
+			el := c.st.load(sl.Arr.sub(sl.Lo + k))
+			iv, ok := el.(Iface)
+			if !ok {
+				return tFalse
+			}
+			op, ok := iv.V.(Opaque)
+			if !ok || !strings.HasPrefix(op.Tag, "cmpopt:") {
+				return tFalse
+			}
+			p := strings.SplitN(strings.TrimPrefix(op.Tag, "cmpopt:"), ":", 2)
+			switch p[0] {
+			case "cmpopts.IgnoreUnexported":
+			case "cmpopts.IgnoreFields":
+				for _, f := range strings.Split(p[1], ",") {
+					if !allowed[f] {
+						return tFalse
+					}
+				}
+			default:
+				return tFalse
+			}
+		}
+		return tTrue
 	case "contains_str":
 		sl, ok := arg(0).(SliceV)
 		if !ok {
